@@ -25,6 +25,8 @@ def must_see(tier):
     for impl in ('c', 'py'):
         m[impl + ':stored:sweep'] = 300
         m[impl + ':stored:commit'] = 300
+        m[impl + ':load-refused:write'] = 30
+        m[impl + ':load-refused:read'] = 3
         for e in EVENTS:
             m['%s:%s' % (impl, e)] = 1
     return m
@@ -78,6 +80,9 @@ def run_shard(spec, rec):
             if stored:
                 ls.fault_conn = conn
                 ls.p_refuse = 0.05
+                # ... and now and then refuses a load inside a single-key
+                # call made right after a sweep
+                ls.p_loadfail = 0.15
                 state = {'stop': False}
 
                 def sweep_hook(ls_, op, args, conn=conn, state=state,
